@@ -46,12 +46,35 @@ THEOREMS = [
 ]
 
 SPLIT_INTEGRATORS = ("mjINT_EULER", "mjINT_IMPLICIT", "mjINT_IMPLICITFAST")
+INVERSE_BASES = ("same", "forward")
 
 
 # arena arrays that some solver paths never write: their content is whatever the (uninitialised, not copied by mj_copyData)
 # free arena held; determined by no stage.  (The island-ordered solver vectors are one group per array since the constraint
 # stage is analysed from its translated body, see checks/c01.py.)
 SCRATCH = {"iscratch", "cstate", "ifrc_smooth", "iacc_smooth", "iacc", "ifrc_constraint", "iefc_aref", "iefc_force"}
+
+
+# The discrete-time inverse (mjENBL_INVDISCRETE with an implicit integrator) is the one place where mj_inverseSkip consumes an
+# array derived from velocities AND inputs that no forward stage produces (d->qDeriv: mjd_smooth_vel reads qvel, ctrl, act).
+# As independent options the cell (flag x integrator x velocity-dependent smooth force) has probability ~0.03 per model, so
+# it is generated on purpose: flag forced, implicit integrators favoured, damped joints, actuators whose velocity derivative
+# depends on ctrl / act (affine gain with a velocity term, muscle) or at least on the velocity.
+DISCRETE_INVERSE_PROFILE = {"integrators": ("implicit", "implicitfast", "implicit", "implicitfast", "Euler"),
+                            "actuators": (1, 3), "actuator_kinds": ("damper", "general", "muscle", "velocity", "cylinder", "position"),
+                            "damping": 0.8, "no_warmstart": 0.4}
+
+
+def make_discrete_inverse_model(rng):
+    mdl = make_model(rng, sleep=0.0, profile=DISCRETE_INVERSE_PROFILE)
+    bit = E("mjENBL_INVDISCRETE")
+    for i, l in enumerate(mdl.lines):
+        w = l.split()
+        if w[:2] == ["option", "enableflags"]:
+            mdl.lines[i] = "option enableflags %d" % (int(w[2]) | bit)
+    mdl.optflags["enable"] |= bit
+    mdl.options["enableflags"] = mdl.optflags["enable"]
+    return mdl
 
 
 def all_fields(sc):
@@ -101,40 +124,53 @@ def test_split(sc, rng, nsteps=2):
     return None
 
 
-def test_skip(sc, rng, inverse=False):
+def test_skip(sc, rng, inverse=False, bases=("same",)):
+    """`bases`: which full call precedes the skipping call.  "same" = the full mj_forward / mj_inverse itself; "forward"
+    (inverse only) = mj_forward alone: it computes every position- and velocity-stage quantity mj_inverse does, but none of
+    the arrays only the inverse computes on the way (d->qDeriv of the discrete-time inverse: zero in fresh data, left by
+    the previous mj_implicit after a step), so a skipping call that reuses such an array is exposed."""
     h = sc.h
     fn = "inverseSkip" if inverse else "forwardSkip"
     out = []
-    for ss in (1, 2):
-        for sk in (0, 1):
-            sc.random_state(rng, 0)
-            for _ in range(rng.randint(0, 2)):
-                h.cmd("call 0 step")
-            if inverse:
-                h.cmd("call 0 forward")
-            if h.cmd("call 0 %s 0 0" % fn) != "ok":
+    for base, ss, sk in [(b, ss, sk) for b in bases for ss in (1, 2) for sk in (0, 1)]:
+        sc.random_state(rng, 0)
+        for _ in range(rng.randint(0, 2)):
+            h.cmd("call 0 step")
+        if inverse and h.cmd("call 0 forward") != "ok" and base == "forward":
+            continue
+        if base == "same" and h.cmd("call 0 %s 0 0" % fn) != "ok":
+            continue
+        # inputs of the stages that are NOT skipped may change
+        what = ("qvel", "ctrl", "qfrc_applied", "xfrc_applied") if ss == 1 else ("ctrl", "qfrc_applied", "xfrc_applied")
+        for c in edit_cmds(sc, rng, 0, what):
+            h.ok(c)
+        h.ok("data 1")
+        h.ok("data 2")
+        h.ok("copydata 1 0")
+        h.ok("copydata 2 0")
+        skip_fields = set(sc.info.cond)
+        if base == "forward":
+            # the position stage of the inverse (mj_invPosition) computes less than mj_fwdPosition (no efc_AR / efc_Y, no
+            # islands): position-stage arrays on which the two stages disagree for this very state are kept from mj_forward
+            # by the skipping call, rebuilt without them by the full call, and are no output of mj_inverse
+            h.ok("data 3")
+            h.ok("copydata 3 0")
+            if h.cmd("call 3 invPosition") != "ok":
                 continue
-            # inputs of the stages that are NOT skipped may change
-            what = ("qvel", "ctrl", "qfrc_applied", "xfrc_applied") if ss == 1 else ("ctrl", "qfrc_applied", "xfrc_applied")
-            for c in edit_cmds(sc, rng, 0, what):
-                h.ok(c)
-            h.ok("data 1")
-            h.ok("data 2")
-            h.ok("copydata 1 0")
-            h.ok("copydata 2 0")
-            r1 = h.cmd("call 1 %s %d %d" % (fn, ss, sk))
-            r2 = h.cmd("call 2 %s 0 %d" % (fn, sk))
-            if r1 != r2:
-                out.append(fail(sc, "%s(%d,%d): different outcome" % (fn, ss, sk), [r1, r2]))
-                continue
-            if r1 != "ok":
-                continue
-            # the flags of the lazily evaluated caches may legitimately differ: a skipped stage does not invalidate a cache
-            # that is still valid (the cached arrays are compared whenever both flags are set)
-            flags = set(sc.info.cond) 
-            d = h.cmd("cmpl 1 2 " + " ".join(f for f in all_fields(sc) if f not in flags))
-            if d != "=":
-                out.append(fail(sc, "mj_%s(stage %d, skipsensor %d) differs from the full call" % (fn, ss, sk), d.split()[:16]))
+            skip_fields |= set(h.cmd("cmp 0 3 *").split()) & set(sc.fields(["pos"]))
+        r1 = h.cmd("call 1 %s %d %d" % (fn, ss, sk))
+        r2 = h.cmd("call 2 %s 0 %d" % (fn, sk))
+        after = "" if base == "same" else " after mj_" + base
+        if r1 != r2:
+            out.append(fail(sc, "%s(%d,%d)%s: different outcome" % (fn, ss, sk, after), [r1, r2]))
+            continue
+        if r1 != "ok":
+            continue
+        # the flags of the lazily evaluated caches may legitimately differ: a skipped stage does not invalidate a cache
+        # that is still valid (the cached arrays are compared whenever both flags are set)
+        d = h.cmd("cmpl 1 2 " + " ".join(f for f in all_fields(sc) if f not in skip_fields))
+        if d != "=":
+            out.append(fail(sc, "mj_%s(stage %d, skipsensor %d)%s differs from the full call" % (fn, ss, sk, after), d.split()[:16]))
     return out
 
 
@@ -241,10 +277,12 @@ def run(ctx):
     h = Harness(exe)
     fails, hist = [], {}
     nmodels = 200 if thorough else 24
-    for mi in range(nmodels):
-        split = mi % 2 == 0
+    ndiscrete = 40 if thorough else 6       # + models of the discrete-time inverse class (see DISCRETE_INVERSE_PROFILE)
+    for mi in range(nmodels + ndiscrete):
+        discrete = mi >= nmodels
+        split = mi % 2 == 0 and not discrete
         integ = rng.choice(("Euler", "implicit", "implicitfast")) if split else None
-        mdl = make_model(rng, sleep=0.0, integrator=integ, profile={"no_warmstart": 0.4})
+        mdl = make_discrete_inverse_model(rng) if discrete else make_model(rng, sleep=0.0, integrator=integ, profile={"no_warmstart": 0.4})
         try:
             sc = Scene(h, info, mdl, False)
             if not sc.loaded:
@@ -253,9 +291,11 @@ def run(ctx):
             tests = []
             if split:
                 tests.append(("split", lambda: [test_split(sc, rng)]))
+            elif discrete:
+                tests.append(("inverseSkip_discrete", lambda: test_skip(sc, rng, inverse=True, bases=INVERSE_BASES)))
             else:
                 tests.append(("forwardSkip", lambda: test_skip(sc, rng)))
-                tests.append(("inverseSkip", lambda: test_skip(sc, rng, inverse=True)))
+                tests.append(("inverseSkip", lambda: test_skip(sc, rng, inverse=True, bases=INVERSE_BASES)))
             tests.append(("forward", lambda: test_forward_state_and_idempotence(sc, rng)))
             for name, t in tests:
                 res = [r for r in t() if r]
@@ -277,25 +317,44 @@ def run(ctx):
     ctx.extra["tests"] = hist
 
     def directed(c):
-        hh = Harness(exe)
+        """runs when a proof / tie obligation is broken and the oracle above found nothing: the rare option cells first (a
+        break in the skeleton of mj_inverseSkip / mj_forwardSkip or of a callee shows only in the cell that reaches it), then
+        more of the general population"""
+        hh = [Harness(exe)]
+
+        def one(mdl, tests):
+            try:
+                sc = Scene(hh[0], info, mdl, False)
+                if not sc.loaded:
+                    return None
+                sc.state_fields = sf
+                res = [r for t in tests for r in t(sc) if r]
+            except HarnessDied as e:
+                res = [{"what": "harness died (%s)" % e, "replay": {"model": mdl.text(), "commands": hh[0].log[1:][-60:]}}]
+            except RuntimeError:
+                res = []
+                hh[0].close()
+                hh[0] = Harness(exe)
+            if res:
+                f = res[0]
+                return {"key": "c04:" + f["what"].split(" (")[0].replace(" ", "-"), "what": f["what"] + ": " + str(f.get("detail")), "replay": f}
+            return None
         try:
+            for mi in range(40):
+                found = one(make_discrete_inverse_model(c.rng),
+                            [lambda sc: test_skip(sc, c.rng, inverse=True, bases=INVERSE_BASES), lambda sc: test_skip(sc, c.rng)])
+                if found:
+                    return found
             for mi in range(60):
                 split = mi % 2 == 0
                 mdl = make_model(c.rng, sleep=0.0, integrator=c.rng.choice(("Euler", "implicit", "implicitfast")) if split else None)
-                sc = Scene(hh, info, mdl, False)
-                if not sc.loaded:
-                    continue
-                sc.state_fields = sf
-                res = [test_split(sc, c.rng)] if split else test_skip(sc, c.rng) + test_skip(sc, c.rng, inverse=True)
-                res += test_forward_state_and_idempotence(sc, c.rng)
-                res = [r for r in res if r]
-                if res:
-                    f = res[0]
-                    return {"key": "c04:" + f["what"].split(" (")[0].replace(" ", "-"), "what": f["what"] + ": " + str(f.get("detail")), "replay": f}
-        except HarnessDied:
-            return None
+                tests = [lambda sc: [test_split(sc, c.rng)]] if split else \
+                    [lambda sc: test_skip(sc, c.rng), lambda sc: test_skip(sc, c.rng, inverse=True, bases=INVERSE_BASES)]
+                found = one(mdl, tests + [lambda sc: test_forward_state_and_idempotence(sc, c.rng)])
+                if found:
+                    return found
         finally:
-            hh.close()
+            hh[0].close()
         return None
     ctx.directed_search = directed
     for f in fails[:6]:
